@@ -197,10 +197,17 @@ func c04One(rc *RunCtx) (c04Case, uint64, bool) {
 	rd := &c04Reader{t: t, data: data, errAt: -1, errVal: errC04Injected}
 	rd.stalls = t.FBool(1, 3)
 	long := t.WBool(1, 24)
+	longBuf := 0
 	if long {
 		// a long stream of short lines under a reader that stalls often (in total, or in long runs) and may hand
 		// out whole lines only: a scanner that counts or limits empty reads shows here
 		n := t.WRange(100, 400)
+		// sometimes longer than a mid-sized buffer (1-4 KiB), so that the buffer fills up, is nearly full when a short read
+		// ends, and rolls over several times
+		longBuf = []int{0, 0, 1024, 1500, 2048, 4096}[t.W(6)]
+		if longBuf > 0 {
+			n = t.WRange(longBuf/3, longBuf)
+		}
 		var b bytes.Buffer
 		for i := 0; i < n; i++ {
 			for k := t.W(6); k > 0; k-- {
@@ -238,6 +245,9 @@ func c04One(rc *RunCtx) (c04Case, uint64, bool) {
 		}
 		if long && t.WBool(2, 3) {
 			cs.BufSize = []int{4096, 128 * 1024}[t.W(2)]
+		}
+		if longBuf > 0 {
+			cs.BufSize = longBuf
 		}
 		sc = readahead.NewImmediate(rd, cs.BufSize)
 	} else {
